@@ -71,6 +71,13 @@ func zzC03x(n int, percent, sharedVariants bool, notReadyAs string) {
 		cats[i] = int(nondetConc(cats[i]))
 	}
 	params, items := zzParamsV(ds, rs, cats, sharedVariants)
+	// a canary may be in progress elsewhere: the controller hands the canary node names over, after having
+	// left those nodes out of the maps — they are not targeted nodes and change nothing in the budget
+	// (a separate case only in the quick absolute-number harness; elsewhere the names are always handed over,
+	// to keep the number of paths)
+	if percent || nondet.Thorough() || nondet.Bool("canaryInProgressOnOtherNodes") {
+		params.CanaryNodes = []string{"canary-node-x", "canary-node-y"}
+	}
 	if notReadyAs != "" {
 		for _, pod := range params.PodByNodeName {
 			if pod == nil {
